@@ -267,10 +267,11 @@ def run_case(case, tier):
             res["sig"] = sig_of(prog["files"])
             res["nontrivial"] = True
             sets = []
+            # (the last one with the compiler's --debug switch: what is traced has no say in what is hashed)
             for k, (hs, cli, cwd) in enumerate([("0", True, None), ("1", True, "/"), (str(rng.randint(2, 10 ** 6)), False, str(Path(os.environ["VF_SCRATCH"]))),
-                                                ("random", True, None)]):
+                                                ("random", True, None), ("0", True, None)]):
                 w = work / f"v{k}"
-                b = CR.build(prog, w, langs=("py", "c", "js", "mat") if k == 0 else ("py",), cli=cli, hashseed=hs, cwd=cwd)
+                b = CR.build(prog, w, langs=("py", "c", "js", "mat") if k == 0 else ("py",), cli=cli, hashseed=hs, cwd=cwd, extra=("--debug",) if k == 4 else ())
                 if b.rc != 0:
                     V.append({"mech": "compile_failed:" + str(b.failure), "detail": b.text[-300:]})
                     continue
@@ -296,7 +297,7 @@ def run_case(case, tier):
             for s in sets[1:]:
                 if s != sets[0]:
                     diff = [n for n in s if s.get(n) != sets[0].get(n)]
-                    V.append({"mech": "hash_depends_on_process", "detail": f"hashes differ between runs (PYTHONHASHSEED / cwd / entry point): {diff[:5]}"})
+                    V.append({"mech": "hash_depends_on_process", "detail": f"hashes differ between runs (PYTHONHASHSEED / cwd / entry point / --debug): {diff[:5]}"})
             return res
         if case["mode"] == "resend":
             return run_resend(case, res, rng, work)
